@@ -245,6 +245,10 @@ func (fs *Store) VisitMailboxes(f func([]storage.Message) (cont bool)) error {
 	for _, name1 := range names1 {
 		names2, err := readDirNames(fs.mailPath, name1)
 		if err != nil {
+			if os.IsNotExist(err) {
+				// Removed since we listed its parent: its last mailbox was emptied.
+				continue
+			}
 			return err
 		}
 
@@ -252,6 +256,9 @@ func (fs *Store) VisitMailboxes(f func([]storage.Message) (cont bool)) error {
 		for _, name2 := range names2 {
 			names3, err := readDirNames(fs.mailPath, name1, name2)
 			if err != nil {
+				if os.IsNotExist(err) {
+					continue
+				}
 				return err
 			}
 
